@@ -53,9 +53,13 @@ def get_series_time_offsets(series_list, head_step):
         index_mapping[new_index] = original_index
     del dec
     head_mapping = build_head_mapping(sorted_list, head_step)
+    # Heads crossed by a single series are uninformative (find_offsets
+    # drops them): they must not count towards the size of a component,
+    # or one long isolated series outweighs the overlapping main body.
     series_at_head = dict(
         (head, set(series_id for series_id, t_mean in value))
         for head, value in list(head_mapping.items())
+        if len(value) > 1
     )
     connected_components = get_connected_components(series_at_head)
     if len(connected_components) > 1:
